@@ -20,7 +20,10 @@ ENTRIES = ["direct", "dispatch"]
 KINDS = ["ptr", "rev", "deque", "stride"]
 # comparator carriers (pointer runs): std::function lvalue / temporary, heap-owning move-sensitive comparator object
 # lvalue / temporary / default-constructed; rk = order by the object's rank table
-CARRIER_ORDS = ["fn-lt", "fn-gt", "fnt-q4", "fnt-lt", "own-rk", "own-q4", "ownt-rk", "ownt-gt", "own-lt"]
+CARRIER_ORDS = ["fn-lt", "fn-gt", "fnt-q4", "fnt-lt", "own-rk", "own-q4", "ownt-rk", "ownt-gt", "own-lt", "fp-lt", "fp-q4", "fp-gt"]
+# named compare-exchange objects (direct entry points only): built from a temporary comparator, factory-returned,
+# heap object from a scoped local comparator, implicit conversion to std::function, default-constructed
+NAMED_ORDS = ["nown-rk", "nown-q4", "fact-rk", "fact-gt", "scop-rk", "scop-lt", "fconv-lt", "fconv-q4"]
 GEN = os.path.join(core.LEAN, "TlxVerif", "Gen", "C15Networks.lean")
 
 
@@ -186,7 +189,10 @@ class C15(flow.Spec):
                     for n in range(17):
                         if not entry_exists(e, n):
                             continue
-                        for o in ["fn-lt", "fnt-q4", "own-rk", "ownt-rk", "own-lt"] + ([] if self._probe_default() else ["ownd"]):
+                        sweep = ["fn-lt", "fnt-q4", "own-rk", "ownt-rk", "own-lt", "fp-q4"] + ([] if self._probe_default() else ["ownd"])
+                        if e == "direct":
+                            sweep += ["nown-rk", "fact-rk", "scop-q4", "fconv-lt", "fp-gt"] + ([] if self._probe_default() else ["dnam"])
+                        for o in sweep:
                             ks = self._keys(rng, n)
                             lines.append(f"run {f} {e} {n} {o} " + (",".join(map(str, ks)) if ks else "-"))
                     cs.append(lines)
@@ -224,7 +230,7 @@ class C15(flow.Spec):
                 ks = self._keys(rng, n)
                 head = "run" if rng.random() < 0.45 else f"runi {rng.choice(KINDS)} {rng.randrange(16)}"
                 if head == "run" and rng.random() < 0.5:
-                    o = rng.choice(carrier_ords)
+                    o = rng.choice(carrier_ords + (NAMED_ORDS + ([] if self._probe_default() else ["dnam"]) if e == "direct" else []))
                 lines.append(f"{head} {f} {e} {n} {o} " + (",".join(map(str, ks)) if ks else "-"))
             cs.append(lines)
         return cs
